@@ -137,3 +137,21 @@ def chain_eval(shape, chain):
         sel, shp = r
         pos = [pos[k] for k in sel]
     return pos, shp
+
+
+def om_bounds_ok(shape, flat, ix):
+    """OpenMDAO's own bounds rules (stricter than NumPy for slices): start in [-n, n-1], stop in [-n, n]"""
+    shp = [prod(shape)] if flat else list(shape)
+    its = items_of(ix, len(shp))
+    if its is None:
+        return False
+    for n, it in zip(shp, its):
+        if it['t'] == 'slice':
+            a, b, c = it['v']
+            if a is not None and b is not None and a == b:
+                continue
+            if a is not None and (a >= n or a < -n):
+                return False
+            if b is not None and (b > n or b < -n):
+                return False
+    return True
